@@ -69,6 +69,47 @@ theorem ntru_solve_sound {R : Type} [CommRing R] (xg : Int → Int → Int × In
       ∀ (ρ : R), ρ ^ (2 ^ d) = -1 → RingZ.ev f ρ * RingZ.ev cG ρ - RingZ.ev g ρ * RingZ.ev cF ρ = (12289 : R) :=
   RingZ.ntruSolve_sound xg hx ks d f g cF cG hf hg hs
 
+/-- the extended Euclid loop of `math.rs::xgcd` (model `RingZ.xgcd`, truncating division, compared with the real
+    routine through the n = 1 case of `ntru_solve`) terminates and returns Bézout coefficients of its first
+    component, which is the gcd up to sign — for all integers -/
+theorem xgcd_bezout (a b : Int) :
+    (RingZ.xgcd a b).2.1 * a + (RingZ.xgcd a b).2.2 * b = (RingZ.xgcd a b).1 ∧
+    (RingZ.xgcd a b).1.natAbs = Int.gcd a b :=
+  ⟨RingZ.xgcd_bezout a b, RingZ.xgcd_gcd a b⟩
+
+/-- … so with the real extended gcd only the Babai quotients remain a parameter (they may be anything): every pair
+    the recursion returns solves the NTRU equation -/
+theorem ntru_solve_sound_with_xgcd {R : Type} [CommRing R]
+    (ks : Nat → List Int → List Int → List (List Int)) (d : Nat) (f g cF cG : List Int)
+    (hf : f.length = 2 ^ d) (hg : g.length = 2 ^ d) (hs : RingZ.ntruSolve RingZ.xgcd ks d f g = some (cF, cG)) :
+    cF.length = 2 ^ d ∧ cG.length = 2 ^ d ∧
+      ∀ (ρ : R), ρ ^ (2 ^ d) = -1 → RingZ.ev f ρ * RingZ.ev cG ρ - RingZ.ev g ρ * RingZ.ev cF ρ = (12289 : R) :=
+  RingZ.ntruSolve_sound RingZ.xgcd RingZ.xgcd_bezout ks d f g cF cG hf hg hs
+
+/-- the base case refuses exactly when the loop's gcd is not +1; a refusal can only lose keys, never produce a
+    wrong one; and an accepted base pair has coprime inputs -/
+theorem ntru_base_accepts_coprime (a b : Int) (p : Int × Int) (h : RingZ.ntruBase a b = some p) :
+    Int.gcd a b = 1 ∧ a * p.2 - b * p.1 = 12289 := by
+  unfold RingZ.ntruBase at h
+  have hb := RingZ.xgcd_bezout a b
+  have hg := RingZ.xgcd_gcd a b
+  generalize RingZ.xgcd a b = t at h hb hg
+  obtain ⟨d, u, v⟩ := t
+  simp only at h hb hg
+  split at h
+  · simp at h
+  rename_i hd
+  have hd1 : d = 1 := by simpa using hd
+  simp only [Option.some.injEq] at h
+  subst h
+  subst hd1
+  refine ⟨by rw [← hg]; rfl, ?_⟩
+  simp only
+  linear_combination (12289 : Int) * hb
+
+example : RingZ.ntruBase 2 13 = some (-12289, -6 * 12289) := by decide +kernel
+example : RingZ.ntruBase 6 4 = none := by decide +kernel
+
 /-- non-vacuity: the model of NTRUSolve on (f, g) = (1 + X, 3 + 2X) (n = 2; N f = 2, N g = 13, −6·2 + 1·13 = 1, no Babai
     rounds) returns a pair that solves the equation over ℤ -/
 example : RingZ.ntruSolve (fun _ _ => (1, -6, 1)) (fun _ _ _ => []) 1 [1, 1] [3, 2] =
